@@ -338,6 +338,8 @@ func c15Random(c *Ctx) {
 			maxLen := pick(r, []int{3, 6, 12, 17, 33, 70})
 			t := trie.New()
 			m := newSetModel()
+			// a second, independent trie used in between (state must not leak between instances)
+			t2nd, m2nd := trie.New(), newSetModel()
 			var hist []trieOp
 			k.Input("history", func() string { return opsString(hist) })
 			var pool []string
@@ -372,6 +374,15 @@ func c15Random(c *Ctx) {
 					o.del = false
 				}
 				hist = append(hist, o)
+				if step%4 == 3 {
+					o2 := trieOp{del: r.IntN(3) == 0, s: string(randSeq(r, alpha, 1+r.IntN(4)))}
+					if !applyOp(k, t2nd, m2nd, o2, fmt.Sprintf("second trie, step %d", step)) {
+						return
+					}
+					if !observeTrie(k, t2nd, m2nd, append(m2nd.Members(), o2.s, ""), fmt.Sprintf("second trie after step %d", step)) {
+						return
+					}
+				}
 				before := m.Canon()
 				if !applyOp(k, t, m, o, fmt.Sprintf("step %d", step)) {
 					return
